@@ -158,6 +158,8 @@ def primOfJ (g : GSpec) (fuel : Nat) : List J → Option Op
       pure (selProportional (← nspecOfJ n) (cycleWeights (← ws.mapM qOfJ)))
   | [.str "selTop", n] => do pure (selTop (← nspecOfJ n))
   | [.str "selBottom", n] => do pure (selBottom (← nspecOfJ n))
+  | [.str "selTopCluster", n] => do pure (selTopCluster (← nspecOfJ n))
+  | [.str "selBottomCluster", n] => do pure (selBottomCluster (← nspecOfJ n))
   | [.str "selFirst", n] => do pure (selFirst (← nspecOfJ n))
   | [.str "selLast", n] => do pure (selLast (← nspecOfJ n))
   | [.str "recUniform"] => some (recPointWise false fuel g)
